@@ -465,6 +465,44 @@ Lemma shutdown_listener_nonvacuous :
   let s := run ls_st (ls_step true) [1; 0; 1; 1; 0; 0] ls_init in ls_final s = true /\ ls_listed s = true /\ ls_thread s = true /\ ls_ok s = true.
 Proof. vm_compute. repeat split. Qed.
 
+(* ------------------------------------------------------------------ 4h. rfbCloseClient against the handshake *)
+Lemma hs_bound : forall f t s, 2 <= t -> hs_step f t s = None.
+Proof. intros f t s H. unfold hs_step. do 2 (destruct t as [|t]; [lia|]). reflexivity. Qed.
+(* HEAD: the client's thread has read the ClientInit message, rfbCloseClient sets RFB_SHUTDOWN, the handshake stores RFB_NORMAL over
+   it; the thread waits for the next message of an idle client, rfbShutdownServer waits in pthread_join: nobody can move *)
+Definition hs_witness : list nat := [1;1; 1;1; 1; 0;0;0; 1].
+Theorem close_during_handshake_lost :
+  let s := run hs_st (hs_step false) hs_witness hs_init in
+  hs_state s = 3 /\ hs_final s = false /\ forall t, enabled hs_st (hs_step false) t s = false.
+Proof.
+  repeat split; try (vm_compute; reflexivity).
+  intros t. do 2 (destruct t as [|t]; [vm_compute; reflexivity|]). reflexivity.
+Qed.
+(* notes/fix_C13_8.diff: whenever the close falls relative to the handshake, nobody gets stuck and the shutdown completes *)
+Definition hs_reach : list hs_st := explore hs_st hs_st_beq (hs_step true) 2 5000 [hs_init] [].
+Definition hs_finishing : list nat := concat (repeat [0; 1] 24).
+Lemma hs_closed : closed hs_st hs_st_beq (hs_step true) 2 hs_reach = true.
+Proof. vm_compute. reflexivity. Qed.
+Lemma hs_init_in : In hs_init hs_reach.
+Proof. apply (mem_in _ _ internal_hs_st_dec_bl). vm_compute. reflexivity. Qed.
+Lemma hs_all_good :
+  forallb (fun s => stuck_free hs_st (hs_step true) 2 hs_final s && hs_final (run hs_st (hs_step true) hs_finishing s)) hs_reach = true.
+Proof. vm_compute. reflexivity. Qed.
+Theorem close_during_handshake_not_lost : forall sched,
+  let s := run hs_st (hs_step true) sched hs_init in
+  (hs_final s = true \/ exists t, t < 2 /\ enabled hs_st (hs_step true) t s = true) /\
+  hs_final (run hs_st (hs_step true) hs_finishing s) = true.
+Proof.
+  intros sched s.
+  assert (H := all_schedules hs_st hs_st_beq internal_hs_st_dec_bl (hs_step true) 2 (hs_bound true)
+                 hs_reach _ hs_init hs_closed hs_init_in hs_all_good sched).
+  cbv beta in H. fold s in H. apply andb_true_iff in H. destruct H as [H1 H2]. split; [|exact H2].
+  unfold stuck_free in H1. apply orb_true_iff in H1. destruct H1 as [H1|H1]; auto.
+  right. apply existsb_exists in H1. destruct H1 as [t [Ht E]]. exists t. split.
+  - apply in_seq in Ht. lia.
+  - unfold enabled. exact E.
+Qed.
+
 (* ------------------------------------------------------------------ 4b. a request wakes the output thread *)
 Lemma rq_bound : forall b kd t s, 3 <= t -> rq_step b kd t s = None.
 Proof. intros b kd t s H. unfold rq_step. do 3 (destruct t as [|t]; [lia|]). reflexivity. Qed.
